@@ -46,7 +46,7 @@ theorem rowInShape_iff (s : List Nat) (row : List Int) : rowInShape s row = true
   simp [rowInShape, RowInShape, List.all_eq_true]
 
 theorem nodup_range_ofNat (n : Nat) : ((List.range n).map Int.ofNat).Nodup :=
-  List.Pairwise.map Int.ofNat (fun a b h => by simpa using h) List.nodup_range
+  List.Pairwise.map Int.ofNat (fun a b h e => h (Int.ofNat.inj e)) List.nodup_range
 
 /-- a permutation of the modes is a rearrangement of `0 .. n-1` -/
 theorem IsPermI.perm {p : List Int} {n : Nat} (h : IsPermI p n) : ((List.range n).map Int.ofNat).Perm p := by
@@ -64,6 +64,174 @@ theorem IsPermI.modesOK {p : List Int} {n : Nat} (h : IsPermI p n) : ModesOK n p
   refine ⟨fun m hmem => ?_, hperm.nodup_iff.1 (nodup_range_ofNat n)⟩
   obtain ⟨k, hk, rfl⟩ := List.mem_map.1 (hperm.mem_iff.2 hmem)
   have := List.mem_range.1 hk
-  exact ⟨Int.natCast_nonneg k, by exact_mod_cast this⟩
+  exact ⟨Int.natCast_nonneg k, Int.ofNat_lt.2 this⟩
+
+/-! ### `tt_dimscheck` -/
+
+theorem any_neg_false_iff (l : List Int) : l.any (· < 0) = false ↔ ∀ x ∈ l, 0 ≤ x := by
+  simp [List.any_eq_false]
+
+theorem any_ge_false_iff (N : Nat) (l : List Int) :
+    l.any (fun x => decide ((N : Int) ≤ x)) = false ↔ ∀ x ∈ l, x < (N : Int) := by
+  simp [List.any_eq_false]
+
+/-- distinct modes of an order-`N` tensor are at most `N` -/
+theorem ModesOK.length_le {N : Nat} {l : List Int} (h : ModesOK N l) : l.length ≤ N := by
+  have hsub : l.Subperm ((List.range N).map Int.ofNat) := by
+    apply List.subperm_of_subset h.2
+    intro x hx
+    obtain ⟨h0, h1⟩ := h.1 x hx
+    refine List.mem_map.2 ⟨x.toNat, List.mem_range.2 (by omega), ?_⟩
+    show Int.ofNat x.toNat = x
+    simp [Int.toNat_of_nonneg h0]
+  simpa using hsub.length_le
+
+/-- what `dimsTail` answers, and when -/
+theorem dimsTail_ok_iff (N : Nat) (M : Option Nat) (arr : List Int) (dupE : Bool) (r : DimsCheck) :
+    dimsTail N M arr dupE = .ok r ↔
+      ModesOK N arr ∧ dupE = false ∧ optAll M (fun m => m = N ∨ m = arr.length) ∧
+      r = ⟨sortedModes arr, M.map (fun m => if arr.length = m then argsortInt arr else sortedModes arr)⟩ := by
+  unfold dimsTail
+  by_cases h1 : arr.any (· < 0) = true
+  · simp only [h1, if_true]
+    constructor
+    · intro h; cases h
+    · rintro ⟨⟨hm, _⟩, _⟩
+      have := (any_neg_false_iff arr).2 (fun x hx => (hm x hx).1)
+      simp [this] at h1
+  have h1' := (any_neg_false_iff arr).1 (by simpa using h1)
+  by_cases h2 : arr.any (fun x => decide ((N : Int) ≤ x)) = true
+  · simp only [h1, h2, if_true, Bool.false_eq_true, if_false]
+    constructor
+    · intro h; cases h
+    · rintro ⟨⟨hm, _⟩, _⟩
+      have := (any_ge_false_iff N arr).2 (fun x hx => (hm x hx).2)
+      simp [this] at h2
+  have h2' := (any_ge_false_iff N arr).1 (by simpa using h2)
+  by_cases h3 : (hasDupI arr || dupE) = true
+  · simp only [h1, h2, h3, if_true, Bool.false_eq_true, if_false]
+    constructor
+    · intro h; cases h
+    · rintro ⟨⟨_, hn⟩, hd, _⟩
+      have := (hasDupI_false arr).2 hn
+      simp [this, hd] at h3
+  have h3' : hasDupI arr = false ∧ dupE = false := by simpa using h3
+  have hmodes : ModesOK N arr := ⟨fun x hx => ⟨h1' x hx, h2' x hx⟩, (hasDupI_false arr).1 h3'.1⟩
+  have hle := hmodes.length_le
+  simp only [h1, h2, h3, Bool.false_eq_true, if_false]
+  cases M with
+  | none =>
+    simp only [optAll, Option.map_none, true_and, hmodes, h3'.2, sortedModes]
+    constructor
+    · intro h; cases h; rfl
+    · intro h; rw [h]
+  | some m =>
+    simp only [optAll, Option.map_some, hmodes, h3'.2, true_and, sortedModes]
+    by_cases hm1 : m > N
+    · simp only [hm1, if_true]
+      constructor
+      · intro h; cases h
+      · rintro ⟨h | h, _⟩ <;> omega
+    by_cases hm2 : m ≠ N ∧ m ≠ arr.length
+    · simp only [hm1, hm2, if_false]
+      constructor
+      · intro h; simp at h
+      · rintro ⟨h | h, _⟩ <;> omega
+    have hm2' : m = N ∨ m = arr.length := by omega
+    by_cases hm3 : arr.length = m
+    · simp only [hm1, hm2, hm3, if_false, if_true]
+      constructor
+      · intro h; cases h; exact ⟨hm2'.imp id (fun _ => hm3.symm ▸ rfl), rfl⟩
+      · rintro ⟨_, h⟩; rw [h]
+    · simp only [hm1, hm2, hm3, if_false]
+      constructor
+      · intro h; cases h; exact ⟨hm2', rfl⟩
+      · rintro ⟨_, h⟩; rw [h]
+
+theorem complement_modesOK (N : Nat) (e : List Int) :
+    ModesOK N (((List.range N).filter (fun (k : Nat) => !e.contains (Int.ofNat k))).map (fun (k : Nat) => Int.ofNat k)) := by
+  constructor
+  · intro m hm
+    obtain ⟨k, hk, rfl⟩ := List.mem_map.1 hm
+    have := List.mem_range.1 (List.mem_filter.1 hk).1
+    exact ⟨Int.natCast_nonneg k, Int.ofNat_lt.2 this⟩
+  · exact List.Pairwise.map _ (fun a b h e' => h (Int.ofNat.inj e')) (List.nodup_range.filter _)
+
+theorem range_modesOK (N : Nat) : ModesOK N ((List.range N).map (fun (k : Nat) => Int.ofNat k)) := by
+  constructor
+  · intro m hm
+    obtain ⟨k, hk, rfl⟩ := List.mem_map.1 hm
+    exact ⟨Int.natCast_nonneg k, Int.ofNat_lt.2 (List.mem_range.1 hk)⟩
+  · exact nodup_range_ofNat N
+
+/-- `tt_dimscheck` answers exactly the well-formed requests, with the sorted selection and the
+index of the multiplicands -/
+theorem dimscheck19_ok_iff (N : Nat) (M : Option Nat) (dims excl : Option (List Int)) (r : DimsCheck) :
+    dimscheck19 N M dims excl = .ok r ↔
+      Pre_dimscheck N M dims excl ∧
+      r = ⟨sortedModes (selModes N dims excl),
+           M.map (fun m => if (selModes N dims excl).length = m then argsortInt (selModes N dims excl)
+                           else sortedModes (selModes N dims excl))⟩ := by
+  cases dims with
+  | some d =>
+    cases excl with
+    | some e => simp [dimscheck19, Pre_dimscheck]
+    | none =>
+      simp only [dimscheck19, dimsTail_ok_iff, Pre_dimscheck, selModes, optAll, Option.isSome_none, Option.isSome_some]
+      constructor
+      · rintro ⟨h1, _, h3, h4⟩; exact ⟨⟨by simp, h1, trivial, h3⟩, h4⟩
+      · rintro ⟨⟨_, h1, _, h3⟩, h4⟩; exact ⟨h1, rfl, h3, h4⟩
+  | none =>
+    cases excl with
+    | none =>
+      simp only [dimscheck19, dimsTail_ok_iff, Pre_dimscheck, selModes, optAll, Option.isSome_none]
+      constructor
+      · rintro ⟨_, _, h3, h4⟩; exact ⟨⟨by simp, trivial, trivial, h3⟩, h4⟩
+      · rintro ⟨⟨_, _, _, h3⟩, h4⟩; exact ⟨range_modesOK N, rfl, h3, h4⟩
+    | some e =>
+      simp only [dimscheck19, Pre_dimscheck, selModes, optAll, Option.isSome_none, Option.isSome_some]
+      by_cases hall : e.all (fun x => decide (0 ≤ x) && decide (x < (N : Int))) = true
+      · have hall' : ∀ m ∈ e, IsMode N m := by
+          simpa [List.all_eq_true, IsMode] using hall
+        simp only [hall, if_true, dimsTail_ok_iff, hasDupI_false]
+        constructor
+        · rintro ⟨_, h2, h3, h4⟩; exact ⟨⟨by simp, trivial, ⟨hall', h2⟩, h3⟩, h4⟩
+        · rintro ⟨⟨_, _, ⟨_, h2⟩, h3⟩, h4⟩; exact ⟨complement_modesOK N e, h2, h3, h4⟩
+      · simp only [hall, Bool.false_eq_true, if_false]
+        constructor
+        · intro h; cases h
+        · rintro ⟨⟨_, _, ⟨h2, _⟩, _⟩, _⟩
+          exact absurd (by simpa [List.all_eq_true, IsMode] using h2) hall
+
+theorem validate_dimscheck_ok_iff (N : Nat) (M : Option Nat) (dims excl : Option (List Int)) :
+    validate_dimscheck N M dims excl = .ok () ↔ Pre_dimscheck N M dims excl := by
+  unfold validate_dimscheck
+  rw [map_unit_ok]
+  constructor
+  · rintro ⟨r, hr⟩; exact ((dimscheck19_ok_iff N M dims excl r).1 hr).1
+  · intro h; exact ⟨_, (dimscheck19_ok_iff N M dims excl _).2 ⟨h, rfl⟩⟩
+
+/-- when the repaired check answers, the check modelled in Core/Dims (C17) gives the same answer -/
+theorem dimsTail_refines (N : Nat) (M : Option Nat) (arr : List Int) (dupE : Bool) (r : DimsCheck)
+    (h : dimsTail N M arr dupE = .ok r) :
+    (if arr.any (· < 0) then (.error .reject : Except Reject DimsCheck) else
+      match M with
+      | none => .ok ⟨(argsortInt arr).map (fun k => (arr.getD k 0).toNat), none⟩
+      | some m =>
+        if m > N then .error .reject
+        else if m ≠ N ∧ m ≠ arr.length then .error .reject
+        else if arr.length = m then .ok ⟨(argsortInt arr).map (fun k => (arr.getD k 0).toNat), some (argsortInt arr)⟩
+        else .ok ⟨(argsortInt arr).map (fun k => (arr.getD k 0).toNat),
+                  some ((argsortInt arr).map (fun k => (arr.getD k 0).toNat))⟩) = .ok r := by
+  unfold dimsTail at h
+  split at h
+  · cases h
+  · rename_i h1
+    simp only [h1, Bool.false_eq_true, if_false]
+    split at h
+    · cases h
+    · split at h
+      · cases h
+      · exact h
 
 end Pyttb
